@@ -146,7 +146,10 @@ const allowedDB = "allowed_db"
 
 var allowedMeas = map[string]bool{"cpu": true, "mem": true}
 
-type check struct{ db, m, perm string }
+type check struct {
+	db, m, perm string
+	allowed     bool
+}
 
 type recRBAC struct {
 	enabled bool
@@ -155,8 +158,12 @@ type recRBAC struct {
 
 func (r *recRBAC) IsRBACEnabled() bool { return r.enabled }
 func (r *recRBAC) CheckPermission(q *auth.PermissionCheckRequest) *auth.PermissionCheckResult {
-	r.calls = append(r.calls, check{q.Database, q.Measurement, q.Permission})
-	if q.Permission == "write" && q.Database == allowedDB && allowedMeas[q.Measurement] {
+	// Same rule as auth.RBACManager for one role: the role has database-level write on allowed_db, narrowed by
+	// measurement-level permissions (cpu, mem). A request with an EMPTY measurement is a database-level question
+	// and is decided by the role-level grant alone; a named measurement is decided by the measurement permissions.
+	ok := q.Permission == "write" && q.Database == allowedDB && (q.Measurement == "" || allowedMeas[q.Measurement])
+	r.calls = append(r.calls, check{q.Database, q.Measurement, q.Permission, ok})
+	if ok {
 		return &auth.PermissionCheckResult{Allowed: true, Source: "rbac"}
 	}
 	return &auth.PermissionCheckResult{Allowed: false, Source: "denied", Reason: "verif allow-list"}
@@ -457,9 +464,11 @@ func (e *env) monitors(ri reqInfo, o *obs) {
 	for _, n := range ri.named {
 		named[n] = true
 	}
-	allowedChecked := map[string]bool{} // db\x00m pairs for which the checker was consulted and answered "allowed"
+	// exactly the (database, measurement) pairs for which CheckPermission(db, m, "write") was called and answered
+	// "allowed"; a database-level call (measurement "") stands for no measurement at all
+	allowedChecked := map[string]bool{}
 	for _, k := range o.checks {
-		if k.perm == "write" && k.db == allowedDB && allowedMeas[k.m] {
+		if k.perm == "write" && k.allowed && k.m != "" {
 			allowedChecked[k.db+"\x00"+k.m] = true
 		}
 	}
